@@ -193,7 +193,15 @@ impl World for W4 {
                     "element_tree": ["html", "body"], "css_selector": if rng.chance(1, 3) { json!("b.x") } else { Value::Null }, "id": Value::Null, "target_hash": Value::Null}]);
             }
             if rng.chance(1, 3) {
-                r["header_filters"] = json!([{"action": rng.pick_str(&["add", "override", "remove"]), "header": "X-H", "value": format!("v{k}"), "id": Value::Null, "target_hash": Value::Null}]);
+                // values (and names) that a C string cannot carry: interior NUL; empty; non-ASCII
+                let value = match rng.below(8) {
+                    0 => format!("a\u{0}b{k}"),
+                    1 => String::new(),
+                    2 => format!("é{k}"),
+                    _ => format!("v{k}"),
+                };
+                let name = if rng.chance(1, 10) { "X-\u{0}H".to_string() } else { "X-H".to_string() };
+                r["header_filters"] = json!([{"action": rng.pick_str(&["add", "override", "remove", "default", "replace"]), "header": name, "value": value, "id": Value::Null, "target_hash": Value::Null}]);
             }
             rules.push(r);
         }
@@ -221,6 +229,12 @@ impl World for W4 {
                 _ => {
                     let mut headers = Vec::new();
                     for _ in 0..rng.below(4) {
+                        if rng.chance(1, 3) {
+                            // headers the library (and the trusted-proxies resolution) parse, with values composed from their grammar
+                            let (n, v) = crate::w7::hostile_header(rng);
+                            headers.push((HexStr::new(n.as_bytes()), HexStr::new(v.as_bytes())));
+                            continue;
+                        }
                         let n = gen_bytes(rng, &["X-A", "x-b", "Accept-Language", "X-Forwarded-For", "Forwarded", "Host", "User-Agent", "Referer"], hostile);
                         let v = gen_bytes(rng, &["fr", "en-US", "10.1.2.3, 8.8.8.8", "for=192.0.2.60;proto=http", "example.com", "curl/8", "é"], hostile);
                         if let (Some(n), Some(v)) = (n, v) {
@@ -766,10 +780,30 @@ fn pass(case: &W4Case, stats: &mut Vec<&'static str>, record_stats: bool) -> Opt
                             }
                             cur = next;
                         }
+                        // a name or value with an interior NUL cannot be handed to C: such an entry comes back with a
+                        // NULL field; it is left out of the comparison on both sides
+                        exp.retain(|(n, v)| !n.contains('\0') && !v.contains('\0'));
+                        got.retain(|(n, v)| !(n.is_empty() && v.is_empty()));
+                        let nul_entries = got.len();
+                        let _ = nul_entries;
                         got.sort();
                         exp.sort();
+                        // entries with one NULL field read as ("", v) or (n, ""): tolerated only if the native list had a NUL entry
                         if got != exp {
-                            pr.add("header-roundtrip", format!("header_filter_filter: {got:?}, native {exp:?}"));
+                            let native_had_nul = window(tag, || {
+                                let mut twin = unsafe { (*a).clone() };
+                                twin.filter_headers(CList::native(&l.resp_headers), l.code, l.add_ids, None)
+                                    .iter()
+                                    .any(|h| h.name.contains('\0') || h.value.contains('\0'))
+                            });
+                            let mut g2 = got.clone();
+                            if native_had_nul {
+                                // drop the half-NULL entries: (name, "") or ("", value) that have no counterpart
+                                g2.retain(|e| exp.contains(e));
+                            }
+                            if g2 != exp {
+                                pr.add("header-roundtrip", format!("header_filter_filter: {got:?}, native {exp:?}"));
+                            }
                         }
                     }
                 }
